@@ -28,8 +28,16 @@ package standard
 //@   ensures s.executionConfig == old(s.executionConfig)
 //@   modifies nothing
 //@
+//@ // C12: what is parsed is exactly the document the configuration source answered with - an empty, truncated or
+//@ // otherwise unparsable answer therefore is an error (and the last good configuration stays), never a configuration
+//@ // srcDoc(), srcErr(): the answer of the source (the static fetch, or the dynamic fetch after the optional certificates)
+//@ spec func srcDoc() []byte
+//@ spec func srcErr() error
 //@ func (*Service).obtainExecutionConfig
 //@   requires s != nil
+//@   assumes call Fetch#1 (doc, err): doc == srcDoc() && err == srcErr()
+//@   assumes call Fetch#5 (doc, err): doc == srcDoc() && err == srcErr()
+//@   at call UnmarshalJSON#1: assert arg0 == srcDoc() && srcErr() == nil
 //@   modifies nothing
 //@
 //@ func (*Service).fetchExecutionConfig
